@@ -79,6 +79,17 @@ func c20scenario(k int, explore bool) string {
 		opt.Bool("verbose", false)
 		opt.String("verify", "")
 		args = []string{"--ver"}
+	case 10: // the help command asked for a topic that abbreviates two commands
+		opt.NewCommand("commit", "")
+		opt.NewCommand("config", "")
+		opt.NewCommand("clean", "")
+		opt.HelpCommand("help")
+		args = []string{"help", "co"}
+	case 11: // an abbreviation of two names of one option and of another option
+		opt.Bool("verbose", false, opt.Alias("verb"))
+		opt.Int("level", 0, opt.Alias("lev"))
+		opt.Bool("version", false)
+		args = []string{"--le=x"}
 	}
 	if explore {
 		vMapOrder("explore")
@@ -98,7 +109,7 @@ func c20scenario(k int, explore bool) string {
 }
 
 func VerifC20_MapOrder() {
-	k := vInt("scenario", 0, 9)
+	k := vInt("scenario", 0, 11)
 	vPhase("run")
 	first := c20scenario(k, false)
 	vObserve("first", first)
